@@ -1475,6 +1475,7 @@ def _det(m, func, args, kwargs):
     ft = [to_real(t) for t in m.full_terms(x)]
     nb = x.numel() // (n * n) if n else 0
     dets = [simp(det_terms(ft[b * n * n:(b + 1) * n * n], n)) for b in range(nb)]
+    m.ctx.det_log = getattr(m.ctx, 'det_log', []) + [dets]
     o0 = out[0] if isinstance(out, (tuple, list)) else out
     m.write(o0, dets)
     if isinstance(out, (tuple, list)):
@@ -2035,3 +2036,50 @@ def _unique(m, func, args, kwargs):
     for o in out[1:]:
         m.clear(o)
     return (uq,) + tuple(out[1:])
+
+
+@handler('aten._linalg_svd.default', 'aten.linalg_svd.default')
+def _svd_stub(m, func, args, kwargs):
+    """contract stub (LAPACK gesdd): U, Vh orthogonal (so det = +-1), S sorted non-negative, A = U diag(S) Vh   (square n <= 3)"""
+    A = args[0]
+    out = func(*args, **kwargs)
+    n = A.shape[-1]
+    if A.shape[-2] != n or n > 3:
+        raise Unsupported('svd stub: only square n <= 3')
+    ft = [to_real(t) for t in m.full_terms(A)]
+    nb = A.numel() // (n * n)
+    ctx = m.ctx
+    Ut, St, Vt = [], [], []
+    for b in range(nb):
+        M = ft[b * n * n:(b + 1) * n * n]
+        U = [[ctx.fresh('svdU_%d%d' % (i, j)) for j in range(n)] for i in range(n)]
+        V = [[ctx.fresh('svdVh_%d%d' % (i, j)) for j in range(n)] for i in range(n)]
+        S = [ctx.fresh('svdS_%d' % i) for i in range(n)]
+        ax = []
+        for X in (U, V):
+            XXt = [[z3.Sum([X[i][k] * X[j][k] for k in range(n)]) for j in range(n)] for i in range(n)]
+            XtX = [[z3.Sum([X[k][i] * X[k][j] for k in range(n)]) for j in range(n)] for i in range(n)]
+            ax += [XXt[i][j] == (1 if i == j else 0) for i in range(n) for j in range(i + 1)]
+            ax += [XtX[i][j] == (1 if i == j else 0) for i in range(n) for j in range(i + 1)]
+            d = det_terms([X[i][j] for i in range(n) for j in range(n)], n)
+            ax.append(z3.Or(d == 1, d == -1))
+        ax += [S[i] >= S[i + 1] for i in range(n - 1)] + [S[n - 1] >= 0]
+        # consequence of orthogonality, stated explicitly because callers test it: det(U Vh) = det(U) det(Vh) = +-1
+        UV = [simp(z3.Sum([U[i][k] * V[k][j] for k in range(n)])) for i in range(n) for j in range(n)]
+        duv = det_terms(UV, n)
+        ctx.svd_det_facts = getattr(ctx, 'svd_det_facts', []) + [z3.Or(duv == 1, duv == -1)]
+        ax += ctx.svd_det_facts[-1:]
+        USV = [[z3.Sum([U[i][k] * S[k] * V[k][j] for k in range(n)]) for j in range(n)] for i in range(n)]
+        ax += [USV[i][j] == M[i * n + j] for i in range(n) for j in range(n)]
+        ctx.axioms += ax
+        Ut += [U[i][j] for i in range(n) for j in range(n)]
+        St += S
+        Vt += [V[i][j] for i in range(n) for j in range(n)]
+    m.write(out[0], Ut)
+    m.write(out[1], St)
+    m.write(out[2], Vt)
+    for o, ts in ((out[0], Ut), (out[1], St), (out[2], Vt)):
+        for t_, v_ in zip(ts, m.concrete_vals(o)):
+            ctx.env[str(t_)] = v_
+    ctx.stubs.add('linalg.svd: contract stub (U, Vh orthogonal with det +-1, S sorted >= 0, A = U diag(S) Vh)')
+    return out
